@@ -105,3 +105,8 @@ SUITES = [
 SUITES[0].n_quick = 200
 SUITES[1].n_quick = 200
 SUITES[2].n_quick = 120
+# thorough tier: about 20 minutes in total (the PostgreSQL-dialect text on the stand-in engine is the slow part)
+SUITES[0].n_thorough = 2000
+SUITES[1].n_thorough = 3000
+SUITES[2].n_thorough = 1500
+SUITES[3].n_thorough = 400
